@@ -310,3 +310,14 @@ pub proof fn lemma_stem_untouched(l: Seq<String>, i: int, b: Store, ext: Seq<cha
     assert(b.contains_key((l[i]@ + ext) + suffix));
     assert(suffix_free(l[i]@ + ext, suffix));
 }
+
+/// by-reference view of a vector of names (`into_iter()` of an owned Vec<String>, elements used by reference)
+pub fn vx_strs<'a>(v: &'a Vec<String>) -> (r: Vec<&'a String>)
+    ensures r.len() == v.len(), forall|i: int| 0 <= i < v.len() ==> *#[trigger] r@[i] == v@[i],
+{
+    let mut r: Vec<&String> = Vec::new();
+    for i in 0..v.len()
+        invariant r.len() == i, forall|j: int| 0 <= j < i ==> *#[trigger] r@[j] == v@[j],
+    { r.push(&v[i]); }
+    r
+}
